@@ -1,6 +1,7 @@
 (* C13 — integer-slack conversions preserve the feasible set. *)
 Require Import Ommx.Num Ommx.Poly Ommx.Msg Ommx.Eval Ommx.Tree Ommx.Arith Ommx.Inst Ommx.Relax
-        Ommx.Transform Ommx.Bound Ommx.BoundProofs Ommx.BoundContent Ommx.BoundEval Ommx.Slack Ommx.SlackProofs.
+        Ommx.Transform Ommx.Bound Ommx.BoundProofs Ommx.BoundContent Ommx.BoundEval Ommx.Slack Ommx.SlackProofs
+        Ommx.InstProofs Ommx.SlackInst.
 From Coq Require Import String.
 Close Scope string_scope. Open Scope list_scope. Open Scope Qc_scope.
 
@@ -85,3 +86,59 @@ Example C13_nonvacuous :
             map (fun v => (dv_id v, dv_bound v)) (i_dvs J) = [(1%N, Some (Fin 0, Fin (qz 3))); (2%N, Some (Fin 0, Fin (qz 2)))] /\
             map c_eq (i_cs J) = [EQ_ZERO].
 Proof. eexists. split; [vm_compute; reflexivity|]. vm_compute. split; reflexivity. Qed.
+
+
+(* ---------------------------------------------------------------------------------------------
+   INSTANCE LEVEL (SlackInst.v): through Instance::evaluate.  After a slack-introducing conversion,
+   for every state x at which I evaluates and every integer k of the new variable's bound, J
+   evaluates at x ++ [(sid, k)] with the same objective, the reported state extended by sid := k,
+   every other evaluated record identical, the record of cid with value f(x) + k/a (and J feasible
+   => I feasible); and when the values x gives to the variables of f extend to an integer point of the
+   box: I is (relaxed-)feasible at x  <=>  some integer k in [0, ub] makes J (relaxed-)feasible. *)
+Theorem C13_convert_instance : forall tiny, tiny_exact tiny -> forall I cid mx J bs c f,
+  convert_slack tiny I cid mx = inr J ->
+  slack_prologue I cid true = inr (bs, c, f) ->
+  i_dvs J <> i_dvs I ->
+  deps_avoid (next_id (i_dvs I)) (i_deps I) ->
+  let sid := next_id (i_dvs I) in
+  exists (a : num) (ub : Z),
+    content_factor f = Some a /\ 0 < a /\ (0 <= ub)%Z /\
+    i_dvs J = i_dvs I ++ [slack_dv sid cid (Fin 0, Fin (qz ub))] /\
+    forall x solI, sget x sid = None -> inst_eval I x = Some solI ->
+      (forall k, (0 <= k <= ub)%Z ->
+         exists solJ, inst_eval J (x ++ [(sid, qz k)]) = Some solJ /\
+           slack_sol_rel cid sid EQ_ZERO (1 / a) (qz k) (i_dvs J) f x solI solJ /\
+           (so_feasible_relaxed solJ = true -> so_feasible_relaxed solI = true) /\
+           (so_feasible solJ = true -> so_feasible solI = true)) /\
+      ((exists rho, in_box rho bs /\ int_valued rho /\ agrees_on f rho x) ->
+         (so_feasible_relaxed solI = true <->
+            exists k solJ, (0 <= k <= ub)%Z /\ inst_eval J (x ++ [(sid, qz k)]) = Some solJ /\ so_feasible_relaxed solJ = true) /\
+         (so_feasible solI = true <->
+            exists k solJ, (0 <= k <= ub)%Z /\ inst_eval J (x ++ [(sid, qz k)]) = Some solJ /\ so_feasible solJ = true)).
+Proof. exact convert_slack_feasible_iff. Qed.
+Print Assumptions C13_convert_instance.
+
+Theorem C13_add_instance : forall tiny, tiny_exact tiny -> forall I cid U J bcoef bs c f,
+  add_slack tiny I cid U = inr (J, Some bcoef) ->
+  slack_prologue I cid true = inr (bs, c, f) ->
+  deps_avoid (next_id (i_dvs I)) (i_deps I) ->
+  let sid := next_id (i_dvs I) in
+  exists (b : num) B l,
+    evaluate_bound f bs = Some B /\ lower B = Fin l /\ b = (- l) / qz (Z.of_N U) /\
+    bcoef = Fin b /\ 0 <= b /\ (0 < Z.of_N U)%Z /\
+    i_dvs J = i_dvs I ++ [slack_dv sid cid (Fin 0, Fin (qz (Z.of_N U)))] /\
+    forall x solI, sget x sid = None -> inst_eval I x = Some solI ->
+      (forall k, (0 <= k <= Z.of_N U)%Z ->
+         exists solJ, inst_eval J (x ++ [(sid, qz k)]) = Some solJ /\
+           slack_sol_rel cid sid LE_ZERO b (qz k) (i_dvs J) f x solI solJ /\
+           (so_feasible_relaxed solJ = true -> so_feasible_relaxed solI = true) /\
+           (so_feasible solJ = true -> so_feasible solI = true)) /\
+      (so_feasible_relaxed solI = true <-> exists k solJ, (0 <= k <= Z.of_N U)%Z /\ inst_eval J (x ++ [(sid, qz k)]) = Some solJ /\ so_feasible_relaxed solJ = true) /\
+      (so_feasible solI = true <-> exists k solJ, (0 <= k <= Z.of_N U)%Z /\ inst_eval J (x ++ [(sid, qz k)]) = Some solJ /\ so_feasible solJ = true).
+Proof. exact add_slack_feasible_iff. Qed.
+Print Assumptions C13_add_instance.
+Check convert_slack_always_inst.
+Check add_slack_always_inst.
+Check convert_slack_inst_nonvacuous.
+Check convert_slack_theorem_applies.
+Print Assumptions convert_slack_theorem_applies.
